@@ -57,6 +57,36 @@ func fatalFacts(s *src, f *facts) {
 	f.b("seBroadcasts", bc != nil, s.pos(bc))
 	li := s.heldAt(sb, "fatalErrLock.L")
 	f.b("seStoreUnderLock", store != nil && li.heldFor(store) && bc != nil && li.heldFor(bc), s.pos(store))
+	// setErr waits for nobody: the only lock it takes is its own condition variable's (a bounded critical
+	// section that runs no foreign code), and it has no channel operation, select or wait
+	own := sb != nil
+	if sb != nil {
+		ast.Inspect(sb, func(n ast.Node) bool {
+			switch v := n.(type) {
+			case *ast.SendStmt, *ast.SelectStmt, *ast.GoStmt:
+				if _, isGo := v.(*ast.GoStmt); !isGo {
+					own = false
+				}
+			case *ast.UnaryExpr:
+				if v.Op.String() == "<-" {
+					own = false
+				}
+			case *ast.CallExpr:
+				if sel, ok := v.Fun.(*ast.SelectorExpr); ok {
+					switch sel.Sel.Name {
+					case "Lock", "RLock":
+						if s.str(sel.X) != "fatalErrLock.L" {
+							own = false
+						}
+					case "Wait", "Acquire":
+						own = false
+					}
+				}
+			}
+			return true
+		})
+	}
+	f.b("seOnlyOwnLock", own, s.pos(se))
 	// Link tail
 	waits := false
 	if lb != nil {
